@@ -34,8 +34,8 @@ pub fn prop() -> Prop {
         ],
         subs: vec![
             Sub::enumerate("instrument_selftest", instrument_selftest).with_fp(),
-            Sub::tape("primitives", 40, 12_000, 600_000, |d, cx| primitives(d, cx, false)).with_fp(),
-            Sub::tape("triangles_polylines", 40, 1_500, 75_000, |d, cx| primitives(d, cx, true)),
+            Sub::tape("primitives", 40, 24_000, 1_200_000, |d, cx| primitives(d, cx, false)).with_fp(),
+            Sub::tape("triangles_polylines", 40, 4_000, 200_000, |d, cx| primitives(d, cx, true)),
             Sub::tape("text", 300, 20_000, 1_000_000, text),
             Sub::tape("images_buffers", 80, 30_000, 1_500_000, images_buffers),
             Sub::tape("adapter_stacks", 200, 30_000, 1_500_000, adapter_stacks),
